@@ -151,7 +151,9 @@ def edrv_tmpl(p="edrv_", n=3):
 def edrv_domain(S, p="edrv_", n=3):
     d = axis_domain(S, p, n) + eta_domain(S, p, n)
     d += [(f"{p}pwr_out_max > 0", S[p + "pwr_out_max"] > 0),
-          (f"{p}s_pwr_mech_regen_max >= 0 (published by set_cur_pwr_regen_max, which ensures it)", S[p + "s_pwr_mech_regen_max"] >= 0)]
+          ]
+    if p + "s_pwr_mech_regen_max" in S:
+        d.append((f"{p}s_pwr_mech_regen_max >= 0 (published by set_cur_pwr_regen_max, which ensures it)", S[p + "s_pwr_mech_regen_max"] >= 0))
     return d
 
 
@@ -225,6 +227,14 @@ def _minmax(vals):
     return lo, hi
 
 
+def _pin(eng, v, leaves):
+    """replay preference: a constant map makes the real interpolation return exactly v"""
+    if not hasattr(eng, "replay_prefs"):
+        eng.replay_prefs = []
+    for l in leaves:
+        eng.replay_prefs.append(_to_z3(l) == v)
+
+
 def interp3d_contract(eng, st, args):
     """utils::interp3d(point, grid, values) -> Ok(v), min(values) <= v <= max(values)
     (contract proved for strictly increasing axes by harness `interp3d_contract_*`)"""
@@ -232,6 +242,7 @@ def interp3d_contract(eng, st, args):
     lo, hi = _minmax(vals)
     v = eng.fresh("interp3d")
     st.assume(z3.And(v >= lo, v <= hi))
+    _pin(eng, v, vals)
     return [(st, _Enum("Result", 0, [v]))]
 
 
@@ -239,7 +250,63 @@ def interp1d_contract(eng, st, args):
     """utils::interp1d(x, xs, ys, false) -> Ok(v), min(ys) <= v <= max(ys)  (no extrapolation)
     (contract proved for strictly increasing xs by harness `interp1d_contract_*`)"""
     ys = _leaves(eng, st, args[2])
+    if any(_is_conc(y) for y in ys):
+        return None  # derating tables ([0, pwr_out_max]) are executed exactly; only efficiency maps use the contract
     lo, hi = _minmax(ys)
     v = eng.fresh("interp1d")
     st.assume(z3.And(v >= lo, v <= hi))
+    _pin(eng, v, ys)
     return [(st, _Enum("Result", 0, [v]))]
+
+
+# ---------------------------------------------------------------- locomotives
+
+
+def conv_tmpl(p="", n=2):
+    e = edrv_tmpl(p + "edrv_", n)
+    # invariant of a conventional unit: no regeneration limit is ever published (the code asserts it)
+    e["state"]["pwr_mech_regen_max"] = 0
+    return {"fc": fc_tmpl(p + "fc_", n), "gen": gen_tmpl(p + "gen_", n), "edrv": e}
+
+
+def conv_domain(S, p="", n=2):
+    d = fc_domain(S, p + "fc_", n) + gen_domain(S, p + "gen_", n) + in_frac_monotone(S, p + "gen_", n)
+    d += edrv_domain(S, p + "edrv_", n) + in_frac_monotone(S, p + "edrv_", n)
+    d += [(f"{p}fc_pwr_out_max_init <= {p}fc_pwr_out_max", S[p + "fc_pwr_out_max_init"] <= S[p + "fc_pwr_out_max"])]
+    return d
+
+
+def bel_tmpl(p="", n=2, ns=2, nc=2):
+    return {"res": res_tmpl(p + "res_", ns, nc), "edrv": edrv_tmpl(p + "edrv_", n)}
+
+
+def bel_domain(S, p="", n=2, ns=2, nc=2):
+    return res_domain(S, p + "res_", ns, nc) + edrv_domain(S, p + "edrv_", n) + in_frac_monotone(S, p + "edrv_", n)
+
+
+def loco_tmpl(kind, p="", n=2, assert_limits=True):
+    pt = Variant("ConventionalLoco", conv_tmpl(p, n)) if kind == "conv" else Variant("BatteryElectricLoco", bel_tmpl(p, n))
+    return {
+        "loco_type": pt,
+        "state": auto_state("LocomotiveState", p + "ls_"),
+        "mass": None, "mu": None, "ballast_mass": None, "baseline_mass": None,
+        "save_interval": None,
+        "assert_limits": assert_limits,
+        "pwr_aux_offset": Sym(p + "pwr_aux_offset"),
+        "pwr_aux_traction_coeff": Sym(p + "pwr_aux_traction_coeff"),
+        "force_max": Sym(p + "force_max"),
+    }
+
+
+def loco_domain(S, kind, p="", n=2):
+    d = conv_domain(S, p, n) if kind == "conv" else bel_domain(S, p, n)
+    d += [(f"{p}pwr_aux_offset >= 0", S[p + "pwr_aux_offset"] >= 0),
+          (f"0 <= {p}pwr_aux_traction_coeff < 1", z3.And(S[p + "pwr_aux_traction_coeff"] >= 0, S[p + "pwr_aux_traction_coeff"] < 1))]
+    return d
+
+
+LOCO_STEP = lambda: [  # the sequence LocomotiveSimulation::solve_step drives
+    Call("Locomotive::set_pwr_aux", [("Option<bool>", Sym("engine_on", "bool"))]),
+    Call("Locomotive::set_cur_pwr_max_out", [("Option<si::Power>", None), ("si::Time", Sym("dt"))]),
+    Call("Locomotive::solve_energy_consumption", [("si::Power", Sym("req")), ("si::Time", Sym("dt")), ("Option<bool>", Sym("engine_on", "bool"))]),
+]
